@@ -136,17 +136,6 @@ class Graph:
         return {"insts": self.insts, "nodes": self.nodes, "edges": self.edges}
 
 
-def replay_paths(ck, graph, paths, label, sep_exit, nchunk=None):
-    """fan (init, labels) behaviours out to jit workers; returns number replayed"""
-    if not paths:
-        return 0
-    nchunk = nchunk or max(1, min(env.NCPU, len(paths) // 40 + 1))
-    base = graph.payload()
-    tasks = [dict(base, op="replay", paths=paths[i::nchunk], sep_exit=sep_exit) for i in range(nchunk)]
-    res = pool.map_tasks("impl.c08", tasks, mode="jit", warm_first=False)
-    return collect_replay(ck, res, label)
-
-
 def collect_replay(ck, res, label):
     n = 0
     for rr in res:
@@ -157,6 +146,8 @@ def collect_replay(ck, res, label):
         ck.evaluations += o["steps"]
         ck.traces += o["n"]
         ck.nontrivial += o["nontrivial"]
+        if o.get("retried"):
+            ck.bump("replays_repeated_after_a_stalled_thread", o["retried"])
         for b in o["bad"]:
             first = b["bad"][0]
             ck.violation("replay-mismatch", {"set": label, "inst": b["inst"], "behaviour": b["labels"], "mismatch": b["bad"], "steps": b["steps"]},
@@ -966,19 +957,40 @@ def main():
     # A. model checking
     # ---------------------------------------------------------------------------------------------
     mutants = {"Mutant_noflush": "HeaderOnce", "Mutant_earlykill": "KillLast", "Mutant_earlykill_complete": "Exit0Complete",
-               "Mutant_swallow": "FailNonZero", "Mutant_overlap": "NoDuplicate"}
+               "Mutant_swallow": "FailNonZero", "Mutant_overlap": "NoDuplicate", "Mutant_nokill": "Deadlock"}
     results = {}
-    if want("mc"):
-        jobs = [("MC_%s" % tier, dict(workers=max(2, env.NCPU // 2), timeout=2400)), ("MC_live", dict(workers=2, timeout=2400))]
-        jobs += [(m, dict(workers=1)) for m in mutants]
-        if not quick:
-            jobs.append(("MC_graph", dict(workers=4, timeout=2400)))
+    # every TLC job of parts A and B is started now; the replay waits for the ones it needs
+    tex = ThreadPoolExecutor(max_workers=16)
+    futs = {}
+
+    def submit(cfg, **kw):
+        futs[cfg] = tex.submit(tlc.run, SPEC, "MultiCore", cfg + ".cfg", **kw)
+
+    def result(cfg):
         try:
-            with ThreadPoolExecutor(max_workers=len(jobs)) as ex:
-                for (c, kw), r in zip(jobs, ex.map(lambda j: tlc.run(SPEC, "MultiCore", j[0] + ".cfg", **j[1]), jobs)):
-                    results[c] = r
+            return futs[cfg].result()
         except tlc.TLCError as e:
             ck.machinery_failure(str(e))
+
+    live = "MC_live" if quick else "MC_live_thorough"
+    beh_cfgs = (("Beh_q", 1), ("Beh_b", 8 if quick else 1)) + (() if quick else (("Beh_c", 1),))
+    if want("mc"):
+        submit("MC_%s" % tier, workers=max(2, env.NCPU // 2), timeout=2400)
+        submit(live, workers=2 if quick else 6, timeout=2400)
+        for m in mutants:
+            submit(m, workers=1)
+    if want("replay"):
+        if "MC_quick" not in futs and quick:
+            submit("MC_quick", workers=max(2, env.NCPU // 2), timeout=2400)
+        if not quick:
+            submit("MC_graph", workers=4, timeout=2400)
+        submit("Graph_beh", workers=2)
+        for c, _ in beh_cfgs:
+            submit(c, workers=4, timeout=2400)
+        submit("Sim", simulate="num=%d" % (400 if quick else 4000), depth=80, seed=ck.seed + 1, deadlock=False, workers=4, timeout=1200)
+    if want("mc"):
+        for c in ["MC_%s" % tier, live] + list(mutants):
+            results[c] = result(c)
         for m, inv in mutants.items():
             if results[m].violated != inv:
                 ck.machinery_failure("mutant spec %s not killed (%s)" % (m, results[m].violated))
@@ -987,20 +999,32 @@ def main():
         ck.add_tlc(r, "MultiCore/MC_%s" % tier)
         if r.violated:
             ck.violation("model", {"cfg": "MC_%s" % tier, "invariant": r.violated, "text": r.error_text[:1500]}, key={"model": "MultiCore"})
-        rl = results["MC_live"]
-        ck.add_tlc(rl, "MultiCore/MC_live")
+        rl = results[live]
+        ck.add_tlc(rl, "MultiCore/" + live)
         if rl.violated:
-            ck.violation("model-liveness", {"cfg": "MC_live", "property": "Terminates", "text": rl.error_text[:1500]}, key={"model": "MultiCore", "liveness": True})
+            ck.violation("model-liveness", {"cfg": live, "property": "Terminates", "text": rl.error_text[:1500]}, key={"model": "MultiCore", "liveness": True})
         ck.exhaustive = True
         lap("model-checking")
 
     # ---------------------------------------------------------------------------------------------
-    # B. spec -> code: lock-step replay
+    # B + C. spec -> code: lock-step replay; code -> spec (a): real multiprocessing runs of the stubbed
+    # program.  One worker pool serves both (starting a worker = importing numba + mchap).
     # ---------------------------------------------------------------------------------------------
+    tasks, tags = [], []
+    W = 2 * env.NCPU  # a lock-step replay mostly waits for thread hand-offs: two workers per CPU
+    if want("fork"):
+        nrun = 64 if quick else 400
+        shapes = [(nl, c, multi) for nl in range(0, 7) for c in range(1, 6) for multi in ((True,) if c > 1 else (False, True))]
+        for i in range(nrun):
+            nl, c, multi = shapes[i % len(shapes)] if i < len(shapes) else rnd.choice(shapes)
+            kind = rnd.choice(["none", "call", "call", "load"]) if nl and i % 2 else "none"
+            fail = rnd.randint(1, nl) if kind != "none" else 0
+            tasks.append({"op": "forkrun", "inst": {"nl": nl, "c": c, "fail": fail, "kind": kind, "multi": multi},
+                          "dir": os.path.join(ck.wd, "fork", "%d" % i), "timeout": 60,
+                          "delays": {str(k): rnd.choice([0, 0, 0, 1, 2, 5]) for k in range(1, nl + 1)}})
+            tags.append("fork")
     if want("replay"):
-        gsrc = results.get("MC_quick" if quick else "MC_graph")
-        if gsrc is None:
-            gsrc = tlc.run(SPEC, "MultiCore", "MC_quick.cfg" if quick else "MC_graph.cfg", timeout=2400)
+        gsrc = result("MC_quick" if quick else "MC_graph")
         g = Graph(gsrc.printed)
         gsrc.printed = None
         if not quick:
@@ -1011,35 +1035,23 @@ def main():
             ck.machinery_failure("MultiCore actions never taken in the dumped state graph: %s" % sorted(never))
         ck.note("actions_taken", sorted(labels))
         cover = g.edge_cover()
-        n = replay_paths(ck, g, cover, "edge-cover", True)
-        ck.note("edge_cover", {"states": len(g.nodes), "transitions": len(g.edges), "behaviours": n, "instances": len(g.insts)})
-        lap("replay-edge-cover")
+        ck.note("edge_cover", {"states": len(g.nodes), "transitions": len(g.edges), "behaviours": len(cover), "instances": len(g.insts)})
         ck.sample({"kind": "replayed-behaviour (edge cover)", "inst": g.insts[g.nodes[cover[len(cover) // 2][0]][0]],
                    "actions": ["%s(%d)" % (a, w) if w else a for a, w in cover[len(cover) // 2][1]]})
         # every maximal behaviour of the small configurations (pool processes exit atomically in join())
-        try:
-            gb = Graph(tlc.run(SPEC, "MultiCore", "Graph_beh.cfg", workers=4).printed)
-            behs = []
-            for cfgname, stride in (("Beh_q", 1), ("Beh_b", 8 if quick else 1)) + (() if quick else (("Beh_c", 1),)):
-                rb = tlc.run(SPEC, "MultiCore", cfgname + ".cfg", timeout=2400)
-                ck.add_tlc(rb, "MultiCore/" + cfgname)
-                hs = sorted((json.dumps(p["inst"], sort_keys=True), p["hist"]) for p in rb.printed)
-                rb.printed = None
-                off = ck.seed % stride
-                sel = hs[off::stride]
-                ck.note("behaviours_" + cfgname, {"maximal_behaviours": len(hs), "replayed": len(sel)})
-                behs += [[gb.init_of[ik], [(a, w) for a, w in h]] for ik, h in sel]
-        except tlc.TLCError as e:
-            ck.machinery_failure(str(e))
-        lap("enumerate-behaviours")
-        replay_paths(ck, gb, behs, "all-behaviours", False)
-        lap("replay-all-behaviours")
+        gb = Graph(result("Graph_beh").printed)
+        behs = []
+        for cfgname, stride in beh_cfgs:
+            rb = result(cfgname)
+            ck.add_tlc(rb, "MultiCore/" + cfgname)
+            hs = sorted((json.dumps(p["inst"], sort_keys=True), p["hist"]) for p in rb.printed)
+            rb.printed = None
+            off = ck.seed % stride
+            sel = hs[off::stride]
+            ck.note("behaviours_" + cfgname, {"maximal_behaviours": len(hs), "replayed": len(sel)})
+            behs += [[gb.init_of[ik], [(a, w) for a, w in h]] for ik, h in sel]
         # simulated behaviours of larger instances (states carried in the history)
-        try:
-            rs = tlc.run(SPEC, "MultiCore", "Sim.cfg", simulate="num=%d" % (400 if quick else 4000), depth=80, seed=ck.seed + 1, deadlock=False,
-                         workers=min(env.NCPU, 8), timeout=1200)
-        except tlc.TLCError as e:
-            ck.machinery_failure(str(e))
+        rs = result("Sim")
         seen, sims = set(), []
         for p in rs.printed:
             k = json.dumps([p["inst"], [x[:2] for x in p["hist"]]])
@@ -1047,30 +1059,33 @@ def main():
                 seen.add(k)
                 sims.append({"inst": p["inst"], "steps": p["hist"]})
         rs.printed = None
-        nchunk = max(1, min(env.NCPU, len(sims) // 20 + 1))
-        res = pool.map_tasks("impl.c08", [{"op": "replay", "behaviours": sims[i::nchunk], "sep_exit": True} for i in range(nchunk)], mode="jit", warm_first=False)
-        ns = collect_replay(ck, res, "simulated")
-        lap("replay-simulated")
-        ck.note("simulated_behaviours", {"distinct": ns, "largest_instance": max(([b["inst"]["nl"], b["inst"]["c"]] for b in sims), default=None)})
-
-    # ---------------------------------------------------------------------------------------------
-    # C. code -> spec (a): real multiprocessing runs of the stubbed program
-    # ---------------------------------------------------------------------------------------------
+        ck.note("simulated_behaviours", {"distinct": len(sims), "largest_instance": max(([b["inst"]["nl"], b["inst"]["c"]] for b in sims), default=None)})
+        lap("graphs-and-behaviours")
+        for label, graph, paths, sep in (("edge-cover", g, cover, True), ("all-behaviours", gb, behs, False)):
+            n = max(1, min(W, len(paths) // 40 + 1))
+            base = graph.payload()
+            for i in range(n):
+                tasks.append(dict(base, op="replay", paths=paths[i::n], sep_exit=sep))
+                tags.append(label)
+        n = max(1, min(W, len(sims) // 20 + 1))
+        for i in range(n):
+            tasks.append({"op": "replay", "behaviours": sims[i::n], "sep_exit": True})
+            tags.append("simulated")
+    if tasks:
+        try:
+            res = pool.map_tasks("impl.c08", tasks, mode="jit", nproc=W, warm_first=False)
+        except pool.WorkerError as e:
+            ck.machinery_failure(str(e))
+        lap("replay-and-fork-runs")
+        for label in ("edge-cover", "all-behaviours", "simulated"):
+            sub = [r for r, t in zip(res, tags) if t == label]
+            if sub:
+                ck.note("replayed_" + label.replace("-", "_"), collect_replay(ck, sub, label))
     if want("fork"):
-        tasks = []
-        nrun = 64 if quick else 400
-        shapes = [(nl, c, multi) for nl in range(0, 7) for c in range(1, 6) for multi in ((True,) if c > 1 else (False, True))]
-        for i in range(nrun):
-            nl, c, multi = shapes[i % len(shapes)] if i < len(shapes) else rnd.choice(shapes)
-            kind = rnd.choice(["none", "call", "call", "load"]) if nl and i % 2 else "none"
-            fail = rnd.randint(1, nl) if kind != "none" else 0
-            tasks.append({"op": "forkrun", "inst": {"nl": nl, "c": c, "fail": fail, "kind": kind, "multi": multi},
-                          "dir": os.path.join(ck.wd, "fork", "%d" % i), "timeout": 60,
-                          "delays": {str(k): rnd.choice([0, 0, 0, 1, 2, 5]) for k in range(1, nl + 1)}})
-        res = pool.map_tasks("impl.c08", tasks, mode="jit", warm_first=False)
-        lap("fork-runs")
         runs = []
         for t, rr in zip(tasks, res):
+            if t["op"] != "forkrun":
+                continue
             if not rr["ok"]:
                 ck.machinery_failure("forkrun failed: %s\n%s" % (rr["error"], rr.get("tb", "")))
             o = rr["result"]
